@@ -240,6 +240,46 @@ def drop_non_functional(exe, lines):
     return [l for i, l in enumerate(lines) if i not in bad], len(bad)
 
 
+def prescreen(exe, lines, chunk=64, chunk_timeout=90, single_timeout=15):
+    """Run the op lines once in chunks with a time limit, so that a run on which the (possibly
+    modified) solver does not terminate cannot block the whole check.
+    → (kept lines, number of NaN-injection runs dropped as not replayable, hung op lines)."""
+    import subprocess
+    if not exe:
+        return lines, 0, []
+    kept, dropped, hung = [], 0, []
+
+    def run(ls, to):
+        try:
+            out, rc, err = C.run_lines(exe, ls, timeout=to)
+            return out if len(out) == len(ls) else None
+        except subprocess.TimeoutExpired:
+            return None
+
+    for i in range(0, len(lines), chunk):
+        part = lines[i:i + chunk]
+        out = run(part, chunk_timeout)
+        if out is None:
+            out = []
+            for l in part:
+                o = run([l], single_timeout)
+                out.append(o[0] if o else None)
+        for l, o in zip(part, out):
+            if o is None:
+                hung.append(l)
+            elif S.Op.parse(l).nat('nanat', 0) != 0 and not oracle_is_function(o):
+                dropped += 1
+            else:
+                kept.append(l)
+    return kept, dropped, hung
+
+
+def report_hung(rep, hung, what='solver'):
+    for l in hung[:3]:
+        rep.violation(f'{what} did not return within the time limit (crash / endless loop) on this run',
+                      {'op': l}, True)
+
+
 class LoopReport(C.Report):
     """Report whose evidence file is named separately (stand-alone runs of a module that is
     normally hooked into another property's check)."""
